@@ -37,6 +37,7 @@ EXPECT = {  # subject prefix -> checks expected to fire when the fix is undone
     'sum over a tuple of axes': ['C13'],
     'JTtoF keeps complex coefficients': ['C17'],
     'combine_blocks accepts the list of lists': ['C17'],
+    'value of x ** y for a negative base': ['C10'],
 }
 
 
